@@ -133,6 +133,9 @@ def default_knobs(rng: Rng, profile: str) -> Dict[str, Any]:
     if profile == "cp":
         k["threads"] = rng.weighted([("main", 5), ("main+bwd", 4), ("main+other", 2)])
     k["bwd_annotation"] = rng.chance(0.6)
+    # ranks of one job need not be annotated alike: later ranks may differ from the first in whether the main thread
+    # carries a backward annotation and in their thread mix (seeded change c13j)
+    k["hetero_ranks"] = profile == "callgraph" and rng.fork("hetero").chance(0.3)
     k["gpu_annotations"] = rng.chance(0.15) and profile not in ("cp",)
     k["vocab"] = rng.weighted([("shared", 4), ("disjoint", 3), ("nested", 2)])
     k["vocab_size"] = rng.weighted([(3, 2), (6, 3), (12, 2), (30, 1)])
@@ -842,7 +845,15 @@ def gen_world(rng: Rng, profile: str = "loader", overrides: Optional[Dict[str, A
             g = _RankGen(rng.fork("rank-shared"), knobs, pos, rank, vocab, step_names)
             g.jrng = rr.fork("jitter")
         else:
-            g = _RankGen(rr.fork("g"), knobs, pos, rank, vocab, step_names)
+            kr = knobs
+            if knobs.get("hetero_ranks") and pos > 0:
+                kr = dict(knobs)
+                hr = rr.fork("hetero")
+                if hr.chance(0.6):
+                    kr["bwd_annotation"] = not knobs["bwd_annotation"]
+                if hr.chance(0.3):
+                    kr["threads"] = hr.choice(["main", "main+bwd", "main+bwd", "main+other"])
+            g = _RankGen(rr.fork("g"), kr, pos, rank, vocab, step_names)
         entries = g.generate(rr.fork("out"))
         st = knobs.get("symbol_targets") or {}
         target = st.get(pos) or st.get(str(pos)) or knobs.get("symbol_target") or 0
@@ -857,6 +868,8 @@ def gen_world(rng: Rng, profile: str = "loader", overrides: Optional[Dict[str, A
                     g = _RankGen(rng.fork("rank-shared"), k2, pos, rank, vocab, step_names)
                     g.jrng = rr.fork("jitter")
                 else:
+                    if knobs.get("hetero_ranks") and pos > 0:
+                        k2["bwd_annotation"], k2["threads"] = kr["bwd_annotation"], kr["threads"]
                     g = _RankGen(rr.fork("g"), k2, pos, rank, vocab, step_names)
                 entries = g.generate(rr.fork("out"))
         entries = _order_entries(rr.fork("order"), entries, knobs["order"])
